@@ -17,7 +17,6 @@ structure Inv (r : Reader) (bs post : List Byte) : Prop where
   lo : r.bufferOffset ≤ r.blockBytesRead
   hi : r.blockBytesRead ≤ r.bufferOffset + 128
   le : r.blockBytesRead ≤ bs.length
-  buflen : r.buffer.length = 128
   buf : ∀ i, i < 128 → r.bufferOffset + i < bs.length → r.buffer[i]? = bs[r.bufferOffset + i]?
   rest : r.asset.rest = bs.drop (r.bufferOffset + 128) ++ post
 
@@ -29,7 +28,7 @@ theorem nextBlockByte_some {r : Reader} {bs post : List Byte} (h : Inv r bs post
     (hk : r.blockBytesRead < bs.length) :
     ∃ r', nextBlockByte r = (.ok (some (bs.getD r.blockBytesRead 0)), r') ∧ Inv r' bs post
       ∧ r'.blockBytesRead = r.blockBytesRead + 1 := by
-  obtain ⟨hsize, hlive, hlo, hhi, hle, hbl, hbuf, hrest⟩ := h
+  obtain ⟨hsize, hlive, hlo, hhi, hle, hbuf, hrest⟩ := h
   unfold nextBlockByte
   simp only [hlive, hsize, Bool.false_eq_true, if_false, ge_iff_le, Nat.not_le.2 hk, BUFFER_SIZE]
   by_cases hp : 128 ≤ r.blockBytesRead - r.bufferOffset
@@ -49,8 +48,7 @@ theorem nextBlockByte_some {r : Reader} {bs post : List Byte} (h : Inv r bs post
       simp
     rw [hval]
     refine ⟨_, rfl, ?_, rfl⟩
-    · refine ⟨rfl, rfl, by simp; omega, by simp; omega, by simp; omega, ?_, ?_, ?_⟩
-      · simp [blit, hbl]; rw [hrest]; simp; omega
+    · refine ⟨rfl, rfl, by simp; omega, by simp; omega, by simp; omega, ?_, ?_⟩
       · intro i hi1 hi2
         simp only [blit] at hi2 ⊢
         have hin : i < min (bs.length - r.bufferOffset - 128) 128 := by omega
@@ -74,7 +72,7 @@ theorem nextBlockByte_some {r : Reader} {bs post : List Byte} (h : Inv r bs post
       rw [getD_eq, getD_eq, hbuf _ (by omega) (by omega)]
       congr 2; omega
     rw [hval]
-    exact ⟨_, rfl, ⟨rfl, rfl, by simp; omega, by simp; omega, by simp; omega, hbl, hbuf, hrest⟩, rfl⟩
+    exact ⟨_, rfl, ⟨rfl, rfl, by simp; omega, by simp; omega, by simp; omega, hbuf, hrest⟩, rfl⟩
 
 /-- at the end of the block nothing more is delivered and nothing changes -/
 theorem nextBlockByte_none {r : Reader} {bs post : List Byte} (h : Inv r bs post)
@@ -116,7 +114,6 @@ theorem yields_of_inv {bs post : List Byte} : ∀ (n : Nat) (r : Reader), Inv r 
 /-- Between blocks: nothing of a current block is pending and the image continues with `post`. -/
 structure Idle (r : Reader) (post : List Byte) : Prop where
   live : r.tapeEnded = false
-  buflen : r.buffer.length = 128
   rest : r.asset.rest = post
   drained : r.currentBlockSize = none ∨ ∃ n, r.currentBlockSize = some n ∧ n ≤ r.blockBytesRead
 
@@ -128,11 +125,11 @@ theorem Idle.none {r : Reader} {post : List Byte} (h : Idle r post) : nextBlockB
 
 theorem Inv.idle {r : Reader} {bs post : List Byte} (h : Inv r bs post) (hk : r.blockBytesRead = bs.length) :
     Idle r post := by
-  refine ⟨h.live, h.buflen, ?_, .inr ⟨_, h.size, by omega⟩⟩
+  refine ⟨h.live, ?_, .inr ⟨_, h.size, by omega⟩⟩
   rw [h.rest, List.drop_eq_nil_of_le (by have := h.hi; omega)]; rfl
 
 theorem Idle.fresh (data : List Byte) : Idle (Reader.new data) data :=
-  ⟨rfl, by simp [Reader.new, BUFFER_SIZE], rfl, .inl rfl⟩
+  ⟨rfl, rfl, .inl rfl⟩
 
 theorem skip_of_yields : ∀ {bs : List Byte} {r r' : Reader} (fuel : Nat), Yields r bs r' → bs.length < fuel →
     skipLeftovers fuel r = (none, r') := by
@@ -164,7 +161,7 @@ theorem le16_encode (n : Nat) (hn : n < 65536) :
 theorem readHeader_block {r : Reader} {bs post : List Byte} (h : Idle r (Spec.encodeBlock bs ++ post))
     (hlen : bs.length < 65536) :
     ∃ r1, readHeader r = (.ok true, r1) ∧ Inv r1 bs post ∧ r1.blockBytesRead = 0 := by
-  obtain ⟨hlive, hbl, hrest, _⟩ := h
+  obtain ⟨hlive, hrest, _⟩ := h
   unfold readHeader
   have h2 : 2 ≤ r.asset.rest.length := by rw [hrest]; simp [Spec.encodeBlock]
   simp only [Asset.readExact, h2, if_true, Bool.not_true, Bool.false_eq_true, if_false]
@@ -177,8 +174,7 @@ theorem readHeader_block {r : Reader} {bs post : List Byte} (h : Idle r (Spec.en
   simp only [hdrop, BUFFER_SIZE]
   have hm : min bs.length 128 ≤ (bs ++ post).length := by simp; omega
   simp only [hm, if_true, Bool.not_true, Bool.false_eq_true, if_false]
-  refine ⟨_, rfl, ⟨rfl, hlive, Nat.le_refl _, by simp, by simp, ?_, ?_, ?_⟩, rfl⟩
-  · simp [blit, hbl]; omega
+  refine ⟨_, rfl, ⟨rfl, hlive, Nat.le_refl _, by simp, by simp, ?_, ?_⟩, rfl⟩
   · intro i hi1 hi2
     simp only [blit, Nat.zero_add] at hi2 ⊢
     have hin : i < min bs.length 128 := by omega
@@ -192,10 +188,10 @@ theorem readHeader_block {r : Reader} {bs post : List Byte} (h : Idle r (Spec.en
 
 /-- with fewer than two bytes left the tape has ended -/
 theorem readHeader_end {r : Reader} {post : List Byte} (h : Idle r post) (hp : post.length < 2) :
-    ∃ r1, readHeader r = (.ok false, r1) ∧ r1.tapeEnded = true ∧ r1.buffer.length = 128 := by
+    ∃ r1, readHeader r = (.ok false, r1) ∧ r1.tapeEnded = true := by
   unfold readHeader
   have h2 : ¬ 2 ≤ r.asset.rest.length := by rw [h.rest]; omega
-  simp [Asset.readExact, h2, h.buflen]
+  simp [Asset.readExact, h2]
 
 theorem nextBlock_idle {r : Reader} {post : List Byte} (h : Idle r post) : nextBlock r = readHeader r := by
   unfold nextBlock
@@ -357,7 +353,7 @@ theorem nextBlock_block {r : Reader} {bs post : List Byte} (h : Ahead r (Spec.en
   rw [he]; exact readHeader_block hi hlen
 
 theorem nextBlock_end {r : Reader} {post : List Byte} (h : Ahead r post) (hp : post.length < 2) :
-    ∃ r1, nextBlock r = (.ok false, r1) ∧ r1.tapeEnded = true ∧ r1.buffer.length = 128 := by
+    ∃ r1, nextBlock r = (.ok false, r1) ∧ r1.tapeEnded = true := by
   obtain ⟨r', hi, he⟩ := h.toIdle
   rw [he]; exact readHeader_end hi hp
 
